@@ -1,5 +1,6 @@
 \* the poller driving the storage, split at its waits, against an arbitrary data source and a
 \* moving head: head 0..2, <= 3 slots, any number of ticks
+\* measured: 129,987 distinct / 7,530,397 generated states, depth 27 (~4 min)
 CONSTANTS
   MaxHead = 2
   MaxSlots = 3
